@@ -27,4 +27,5 @@ struct fw_board {
 };
 extern struct fw_board fw_board;
 extern int fw_factory_hook_calls;
+extern int fw_hook_rs_log;
 #endif
